@@ -137,7 +137,7 @@ def run(ctx, env):
     saved = ctx.obls
     ctx.obls = []
     c02.wrappers_rule(ctx, prog, an)
-    body = prog.body("NetflowParser::parse_bytes")
+    body = role_body(prog, "NetflowParser::parse_bytes")
     sub = ctx.obls
     ctx.obls = saved
     for o in sub:
